@@ -277,8 +277,14 @@ func (s *readerSys) Apply(op int, check bool) (what, sig string) {
 				s.pos += m
 			}
 		case "release":
-			if err := s.r.Release(nil); err != nil {
-				fail("release-error", "Release returned %v", err)
+			// Release is told the error the caller's decoding ended with (if any); what the reader does must not depend on it.
+			// Histories with an odd number of bytes consumed since the last Release pass a non-nil error.
+			var arg error
+			if (s.pos-s.base)%2 == 1 {
+				arg = errX
+			}
+			if err := s.r.Release(arg); err != nil {
+				fail("release-error", "Release(%v) returned %v", arg, err)
 			}
 			s.base = s.pos
 			s.kept = s.kept[:0]
